@@ -54,6 +54,9 @@ def ops03 (op : String) (a : List String) : Option String :=
       showBuilt (setZoneSetpoint (unesc c) i t)
   | "build", ["put_sensor_temp", d, t] => (parseFloatArg t).map fun t => showBuilt (putSensorTemp (unesc d) t)
   | "build", ["put_dhw_temp", d, t] => (parseFloatArg t).map fun t => showBuilt (putDhwTemp (unesc d) t)
+  | "build", ["put_outdoor_temp", d, t] => (parseFloatArg t).map fun t => showBuilt (putOutdoorTemp (unesc d) t)
+  | "build", ["put_co2_level", d, t] => (parseFloatArg t).map fun t => showBuilt (putCo2Level (unesc d) t)
+  | "build", ["put_indoor_humidity", d, t] => (parseFloatArg t).map fun t => showBuilt (putIndoorHumidity (unesc d) t)
   | "build", ["set_dhw_params", c, sp, ov, df] => (parseFloat sp).bind fun sp => ov.toInt?.bind fun ov => (parseFloat df).map fun df =>
       showBuilt (setDhwParams (unesc c) sp ov df)
   | "build", ["set_zone_config", c, i, lo, hi, a, b, m] => (parseIdx i).bind fun i => (parseFloat lo).bind fun lo => (parseFloat hi).bind fun hi =>
